@@ -3,6 +3,7 @@ import math, warnings
 import numpy as np
 from common import h, uh, hl, jf, jfl, unjf, close, run_driver, loguniform
 import real, gen
+from common import JobTimeout, time_limit
 from real import evolve_mf, PowerLawIMF
 
 TRUSTED = ["dopri5 step control (absolute tolerance 1e-5 is not scale-free; budget below)"]
@@ -73,10 +74,12 @@ def pair_worker(job):
         cls = evolve_mf.EvolvedMFWithBH if kind == "fbh" else evolve_mf.EvolvedMF
         # integrator tolerance tightened from outside (scipy's ode wrapped): at the default 1e-5 the solver's own error on the
         # remnant bins (right-hand side jumps whenever the deposit bin changes) is percent-level and not scale-free
-        with real.recording_ode(**(dict(rtol=1e-10, atol=1e-10, nsteps=10**7) if tight else {})):
+        with time_limit(240), real.recording_ode(**(dict(rtol=1e-10, atol=1e-10, nsteps=10**7) if tight else {})):
             a = gen.build(cfg, cls=cls)
             cfg2 = dict(cfg); cfg2["N0"] = cfg["N0"] * lam; cfg2["esc_rate"] = cfg["esc_rate"] * lam
             b = gen.build(cfg2, cls=cls)
+    except JobTimeout:
+        res["error"] = "ValueError"; res["timeout"] = True; return res       # skipped (counted), like a rejected configuration
     except ValueError as e:
         res["error"] = "ValueError"; return res
     except Exception as e:
